@@ -16,9 +16,11 @@
 (*     control operators) over character CLASSES,                          *)
 (*   - RspWords: a transcription of wild's arguments_from_string,          *)
 (*   - Script / AtFile: a transcription of SaveDirState::write_args,       *)
-(*     write_copied_file_arg (libwild/src/save_dir.rs),                    *)
-(*   - the property RoundTrip, and a candidate quoting (FixScript) for     *)
-(*     which RoundTrip is checked to hold for every text.                  *)
+(*     write_copied_file_arg, write_quoted, write_shell_quoted as coded    *)
+(*     today (libwild/src/save_dir.rs),                                    *)
+(*   - the property RoundTrip, checked by TLC as an invariant of that      *)
+(*     quoting for every text, and the quoting wild had before the fix     *)
+(*     (OldScript / OldAtFile), which TLC must reject.                     *)
 (* TLC enumerates all texts up to MaxLen over the classes in every         *)
 (* position kind and exports (kind, text, verdict, blamed class).  The     *)
 (* harness (checks/c24.py) replays every exported case into the real wild  *)
@@ -201,41 +203,52 @@ RspLex(s, i, out, heap, quote, expws) ==
 
 RspWords(s) == RspLex(s, 1, <<>>, NoHeap, "none", FALSE)
 
-(* the read loop of run-with:  LINE="${LINE//\$D/$D}"  LINE="${LINE//\$OUT/$OUT}" : textual *)
+(* ----------------------------------------------------------------------- *)
+(* What wild writes (libwild/src/save_dir.rs, as coded today).             *)
+(* Script: every argument is single-quoted (write_shell_quoted: ' -> '\'') *)
+(* ; a copied file is written as "$D"/'<relative path>' (write_copied_     *)
+(* file_arg); the output as -o "$OUT".  At-file: one argument per line,    *)
+(* a backslash before white space, quotes and backslash (write_quoted,     *)
+(* the syntax of wild's own response-file lexer); a copied file as         *)
+(* "$D"/<escaped relative path>.  The read loop of run-with substitutes    *)
+(* the placeholders "$D" and "$OUT" INCLUDING their quotes                 *)
+(*   LINE="${LINE//\"\$D\"/$D}"   LINE="${LINE//\"\$OUT\"/$OUT}"           *)
+(* (an escaped text never contains D or T followed by an unescaped quote,  *)
+(* so no argument text can forge a placeholder).                           *)
+(* A neighbour argument `w` before and after shows damage that would spill *)
+(* over to other arguments.                                                *)
+Sep == <<"sp", "bs", "nl", "sp", "sp">>                 \* write_script_arg_separator
+W == <<"w">>
+InDir == DVal \o <<"slash", "a", "slash">>
+
+RECURSIVE SqBody(_)
+SqBody(t) == IF t = <<>> THEN <<>>
+             ELSE (IF Head(t) = "sq" THEN <<"sq", "bs", "sq", "sq">> ELSE <<Head(t)>>) \o SqBody(Tail(t))
+Sq(t) == <<"sq">> \o SqBody(t) \o <<"sq">>                \* write_shell_quoted
+QPre == <<"dq", "dol", "D", "dq", "slash">>               \* "$D"/
+
+RECURSIVE RspEsc(_)
+RspEsc(t) == IF t = <<>> THEN <<>>                        \* write_quoted(.., is_rsp_file = true)
+             ELSE (IF Head(t) \in {"sp", "tab", "nl", "sq", "dq", "bs"} THEN <<"bs", Head(t)>> ELSE <<Head(t)>>)
+                  \o RspEsc(Tail(t))
+
+Mid(kind, t) ==
+    CASE kind = "file"    -> QPre \o Sq(<<"a", "slash">> \o t)
+      [] kind = "out"     -> <<"dash", "o", "sp", "dq", "dol", "O", "U", "T", "dq">>     \* `-o "$OUT"`, text unused
+      [] kind = "opteq"   -> Sq(<<"dash", "h", "eq">> \o t)
+      [] kind = "optsep"  -> Sq(<<"dash", "h">>) \o Sep \o Sq(t)
+      [] kind = "libdir"  -> <<"dash", "L">> \o QPre \o Sq(<<"a", "slash">> \o t)
+      [] kind = "rspfile" -> QPre \o <<"a", "slash">> \o RspEsc(t)
+      [] kind = "rspopt"  -> RspEsc(<<"dash", "h", "eq">> \o t)
+Script(kind, t) == Sq(W) \o Sep \o Mid(kind, t) \o Sep \o Sq(W)
+AtFile(kind, t) == <<"nl">> \o W \o <<"nl">> \o Mid(kind, t) \o <<"nl">> \o W
+
 RECURSIVE Subst(_)
 Subst(s) ==
     IF s = <<>> THEN <<>>
-    ELSE IF Len(s) >= 2 /\ s[1] = "dol" /\ s[2] = "D" THEN DVal \o Subst(SubSeq(s, 3, Len(s)))
-    ELSE IF Len(s) >= 4 /\ SubSeq(s, 1, 4) = <<"dol", "O", "U", "T">> THEN OutVal \o Subst(SubSeq(s, 5, Len(s)))
+    ELSE IF Len(s) >= 4 /\ SubSeq(s, 1, 4) = <<"dq", "dol", "D", "dq">> THEN DVal \o Subst(SubSeq(s, 5, Len(s)))
+    ELSE IF Len(s) >= 6 /\ SubSeq(s, 1, 6) = <<"dq", "dol", "O", "U", "T", "dq">> THEN OutVal \o Subst(SubSeq(s, 7, Len(s)))
     ELSE <<Head(s)>> \o Subst(Tail(s))
-
-(* ----------------------------------------------------------------------- *)
-(* What wild writes (save_dir.rs).  A neighbour argument `w` before and    *)
-(* after shows damage that spills over to other arguments.                 *)
-Sep == <<"sp", "bs", "nl", "sp", "sp">>                 \* write_script_arg_separator
-W == <<"w">>
-Pre == <<"dol", "D", "slash", "a", "slash">>            \* write_copied_file_arg: `$D/` + path, raw
-InDir == DVal \o <<"slash", "a", "slash">>
-
-RECURSIVE EscArg(_)
-(* write_args, non-file argument in the script: backslash before space, `$`, `\` only *)
-EscArg(t) == IF t = <<>> THEN <<>>
-             ELSE (IF Head(t) \in {"sp", "dol", "bs"} THEN <<"bs", Head(t)>> ELSE <<Head(t)>>) \o EscArg(Tail(t))
-
-Frame(mid) == W \o Sep \o mid \o Sep \o W
-
-Mid(kind, t) ==
-    CASE kind = "file"   -> Pre \o t
-      [] kind = "out"    -> <<"dash", "o", "sp", "dol", "O", "U", "T">>    \* `-o $OUT`, text unused
-      [] kind = "opteq"  -> <<"dash", "h", "eq">> \o EscArg(t)
-      [] kind = "optsep" -> <<"dash", "h">> \o Sep \o EscArg(t)
-      [] kind = "libdir" -> <<"dash", "L">> \o Pre \o t
-      [] kind = "rspfile" -> Pre \o t
-      [] kind = "rspopt"  -> <<"dash", "h", "eq">> \o t
-Script(kind, t) == Frame(Mid(kind, t))
-
-(* at-N.txt: newline before every argument, raw text ("no shell escaping is needed") *)
-AtFile(kind, t) == <<"nl">> \o W \o <<"nl">> \o Mid(kind, t) \o <<"nl">> \o W
 
 Expected(kind, t) ==
     CASE kind \in {"file", "rspfile"} -> <<W, InDir \o t, W>>
@@ -251,55 +264,49 @@ Replayed(kind, t) ==
 (* THE PROPERTY (per argument): the replay sees the original arguments *)
 RoundTrip(kind, t) == LET r == Replayed(kind, t) IN r.ok /\ r.words = Expected(kind, t)
 
-(* which class to blame: in the shortest prefix p that does not round-trip, the first character whose
-   replacement by a plain character repairs p (else p's last character) *)
-Blame(kind, t) ==
-    IF RoundTrip(kind, t) THEN "none"
-    ELSE LET F == {i \in 1..Len(t) : ~RoundTrip(kind, SubSeq(t, 1, i))}
+(* ----------------------------------------------------------------------- *)
+(* The quoting wild had before the fix (deliberately kept as the broken    *)
+(* variant: TLC must reject OldRoundTrips; its blamed classes are the keys *)
+(* a regression would be reported under): a backslash before space, `$`    *)
+(* and `\` only in non-file arguments, `$D/` + raw path for copied files,  *)
+(* raw text in at-files, placeholders `$D` / `$OUT` without quotes.        *)
+OldPre == <<"dol", "D", "slash", "a", "slash">>
+RECURSIVE EscArg(_)
+EscArg(t) == IF t = <<>> THEN <<>>
+             ELSE (IF Head(t) \in {"sp", "dol", "bs"} THEN <<"bs", Head(t)>> ELSE <<Head(t)>>) \o EscArg(Tail(t))
+OldMid(kind, t) ==
+    CASE kind = "file"    -> OldPre \o t
+      [] kind = "out"     -> <<"dash", "o", "sp", "dol", "O", "U", "T">>
+      [] kind = "opteq"   -> <<"dash", "h", "eq">> \o EscArg(t)
+      [] kind = "optsep"  -> <<"dash", "h">> \o Sep \o EscArg(t)
+      [] kind = "libdir"  -> <<"dash", "L">> \o OldPre \o t
+      [] kind = "rspfile" -> OldPre \o t
+      [] kind = "rspopt"  -> <<"dash", "h", "eq">> \o t
+OldScript(kind, t) == W \o Sep \o OldMid(kind, t) \o Sep \o W
+OldAtFile(kind, t) == <<"nl">> \o W \o <<"nl">> \o OldMid(kind, t) \o <<"nl">> \o W
+RECURSIVE OldSubst(_)
+OldSubst(s) ==
+    IF s = <<>> THEN <<>>
+    ELSE IF Len(s) >= 2 /\ s[1] = "dol" /\ s[2] = "D" THEN DVal \o OldSubst(SubSeq(s, 3, Len(s)))
+    ELSE IF Len(s) >= 4 /\ SubSeq(s, 1, 4) = <<"dol", "O", "U", "T">> THEN OutVal \o OldSubst(SubSeq(s, 5, Len(s)))
+    ELSE <<Head(s)>> \o OldSubst(Tail(s))
+OldReplayed(kind, t) ==
+    IF kind \in ShellKinds THEN ShellWords(OldScript(kind, t), t)
+    ELSE RspWords(OldSubst(OldAtFile(kind, t)))
+OldRoundTrip(kind, t) == LET r == OldReplayed(kind, t) IN r.ok /\ r.words = Expected(kind, t)
+
+(* which class to blame under a quoting RT(_, _): in the shortest prefix p that does not round-trip, the
+   first shell-special character whose replacement by a plain character repairs p (else any repairing
+   character, else p's last character) *)
+BlameFor(RT(_, _), kind, t) ==
+    IF RT(kind, t) THEN "none"
+    ELSE LET F == {i \in 1..Len(t) : ~RT(kind, SubSeq(t, 1, i))}
              n == CHOOSE i \in F : \A j \in F : i <= j
              p == SubSeq(t, 1, n)
-             C == {i \in 1..n : RoundTrip(kind, [p EXCEPT ![i] = "a"])}
-             S == {i \in C : p[i] \notin {"a", "D", "eq", "dash", "at"}}     \* prefer a shell-special class
+             C == {i \in 1..n : RT(kind, [p EXCEPT ![i] = "a"])}
+             S == {i \in C : p[i] \notin {"a", "D", "eq", "dash", "at"}}
              Min(X) == CHOOSE i \in X : \A j \in X : i <= j
          IN IF S # {} THEN p[Min(S)] ELSE IF C # {} THEN p[Min(C)] ELSE p[n]
-
-(* ----------------------------------------------------------------------- *)
-(* A quoting that works: single-quote every argument (' -> '\''), "$D"/ in *)
-(* front of copied paths, "$OUT"; in at-files a backslash before white     *)
-(* space, quotes and backslash, and the directory placeholder written as   *)
-(* "$D" INCLUDING the quotes (an escaped text never contains D followed by *)
-(* an unescaped quote, so the placeholder cannot be forged by a text).     *)
-RECURSIVE SqBody(_)
-SqBody(t) == IF t = <<>> THEN <<>>
-             ELSE (IF Head(t) = "sq" THEN <<"sq", "bs", "sq", "sq">> ELSE <<Head(t)>>) \o SqBody(Tail(t))
-Sq(t) == <<"sq">> \o SqBody(t) \o <<"sq">>
-QPre == <<"dq", "dol", "D", "dq", "slash">>
-
-FixScript(kind, t) ==
-    CASE kind = "file"   -> Frame(QPre \o Sq(<<"a", "slash">> \o t))
-      [] kind = "out"    -> Frame(<<"dash", "o", "sp", "dq", "dol", "O", "U", "T", "dq">>)
-      [] kind = "opteq"  -> Frame(Sq(<<"dash", "h", "eq">> \o t))
-      [] kind = "optsep" -> Frame(Sq(<<"dash", "h">>) \o Sep \o Sq(t))
-      [] kind = "libdir" -> Frame(<<"dash", "L">> \o QPre \o Sq(<<"a", "slash">> \o t))
-
-RECURSIVE RspEsc(_)
-RspEsc(t) == IF t = <<>> THEN <<>>
-             ELSE (IF Head(t) \in {"sp", "tab", "nl", "sq", "dq", "bs"} THEN <<"bs", Head(t)>> ELSE <<Head(t)>>)
-                  \o RspEsc(Tail(t))
-RECURSIVE FixSubst(_)
-(* LINE="${LINE//\"\$D\"/$D}" : replaces  "$D"  (with the quotes) *)
-FixSubst(s) ==
-    IF s = <<>> THEN <<>>
-    ELSE IF Len(s) >= 4 /\ SubSeq(s, 1, 4) = <<"dq", "dol", "D", "dq">> THEN DVal \o FixSubst(SubSeq(s, 5, Len(s)))
-    ELSE <<Head(s)>> \o FixSubst(Tail(s))
-FixAtFile(kind, t) ==
-    CASE kind = "rspfile" -> <<"nl">> \o W \o <<"nl", "dq", "dol", "D", "dq", "slash", "a", "slash">> \o RspEsc(t) \o <<"nl">> \o W
-      [] kind = "rspopt"  -> <<"nl">> \o W \o <<"nl">> \o RspEsc(<<"dash", "h", "eq">> \o t) \o <<"nl">> \o W
-
-FixReplayed(kind, t) ==
-    IF kind \in ShellKinds THEN ShellWords(FixScript(kind, t), t)
-    ELSE RspWords(FixSubst(FixAtFile(kind, t)))
-FixRoundTrip(kind, t) == LET r == FixReplayed(kind, t) IN r.ok /\ r.words = Expected(kind, t)
 
 (* ----------------------------------------------------------------------- *)
 (* Enumeration: one state per (kind, text).                                *)
@@ -317,17 +324,23 @@ Verdict(c) ==
         why |-> r.why, words |-> r.words, expected |-> e,
         mid |-> Mid(c.kind, c.text),
         script |-> IF c.kind \in ShellKinds THEN Script(c.kind, c.text) ELSE AtFile(c.kind, c.text),
-        blame |-> Blame(c.kind, c.text),
-        fix_rt |-> FixRoundTrip(c.kind, c.text)]
+        blame |-> BlameFor(RoundTrip, c.kind, c.text),
+        old_rt |-> OldRoundTrip(c.kind, c.text),
+        old_blame |-> BlameFor(OldRoundTrip, c.kind, c.text),
+        \* the old quoting's script and words: the bash model is pinned against /bin/bash on them too,
+        \* because they exercise every branch of the lexer (the new script is all single quotes)
+        old_script |-> IF c.kind \in ShellKinds THEN OldScript(c.kind, c.text) ELSE <<>>,
+        old_words |-> OldReplayed(c.kind, c.text).words,
+        old_why |-> OldReplayed(c.kind, c.text).why]
 
 Emit == PrintT(<<"REPLAY", ToJson(Verdict(case))>>)
 
-(* the candidate quoting round-trips EVERY text in every position: the lexer models can express a
-   correct quoting, so a negative verdict on wild's quoting is not an artefact of the model *)
-FixAlwaysRoundTrips == FixRoundTrip(case.kind, case.text)
-(* the property as demanded of wild's quoting; expected to FAIL on the pinned tree (run separately,
-   SaveDir_claim.cfg), the failing texts are what the harness replays *)
-WildRoundTrips == RoundTrip(case.kind, case.text)
-(* texts of plain characters always round-trip (sanity of Script / Expected) *)
-PlainRoundTrips == (\A i \in 1..Len(case.text) : case.text[i] = "a") => RoundTrip(case.kind, case.text)
+(* THE PROPERTY as an invariant of the quoting that is coded today: every text in every position *)
+RoundTripHolds == RoundTrip(case.kind, case.text)
+(* the old quoting must be rejected (SaveDir_oldquoting.cfg): the models of bash and of the
+   response-file lexer can tell a broken quoting from a correct one *)
+OldRoundTrips == OldRoundTrip(case.kind, case.text)
+(* texts of plain characters round-trip even under the old quoting (sanity of Script / Expected) *)
+PlainRoundTrips == (\A i \in 1..Len(case.text) : case.text[i] = "a") =>
+                       (RoundTrip(case.kind, case.text) /\ OldRoundTrip(case.kind, case.text))
 =============================================================================
